@@ -569,6 +569,7 @@ pub struct Probes {
     pub listener_calls: u64,
     pub cont_result_mismatch: u64,
     pub stop_flag_seen_without_restart: u64,
+    pub old_thread_alive_at_run_return: u64,
 }
 
 impl Probes {
@@ -594,6 +595,7 @@ impl Probes {
         self.listener_calls += o.listener_calls;
         self.cont_result_mismatch += o.cont_result_mismatch;
         self.stop_flag_seen_without_restart += o.stop_flag_seen_without_restart;
+        self.old_thread_alive_at_run_return += o.old_thread_alive_at_run_return;
     }
     pub fn to_json(&self) -> Value {
         json!({
@@ -615,6 +617,7 @@ impl Probes {
             "spurious_wakes_fired": self.spurious_wakes,
             "cont_return_value_differs_from_model(info)": self.cont_result_mismatch,
             "stop_flag_seen_set_without_restart(info)": self.stop_flag_seen_without_restart,
+            "previous_parser_thread_still_alive_when_run_returned(info)": self.old_thread_alive_at_run_return,
         })
     }
 }
@@ -794,6 +797,12 @@ pub fn check_history(
                                 seq
                             ));
                         }
+                        if let Some(prev) = runs.last_mut() {
+                            // from the moment run() is invoked the previous run is being
+                            // superseded: what it still delivers is unconstrained in content
+                            // (the model does not look for the implementation's stop signal)
+                            prev.superseded = true;
+                        }
                         if let Some(prev) = runs.last() {
                             probes.restarts += 1;
                             if prev.sent_total != prev.recvd_total {
@@ -845,11 +854,10 @@ pub fn check_history(
                                     ));
                                 }
                                 if prev.task.is_some() && !prev.exited {
-                                    flag!(viol(
-                                        "old-thread-alive",
-                                        "run() returned while the previous parser thread is still alive".into(),
-                                        seq
-                                    ));
+                                    // informational: the property asks that the previous run is
+                                    // terminated, not that it is gone before run() returns; a
+                                    // thread that never ends is caught as deadlock / step budget
+                                    probes.old_thread_alive_at_run_return += 1;
                                 }
                             }
                         } else if res != "ok" {
